@@ -20,7 +20,7 @@ def get_first_range(header, maxlen=0):
         # no-perix/unsupported-units
         return
 
-    first_range = ranges_str.split(',', 1)[0]
+    first_range = ranges_str.split(',', 1)[0].strip(' \t')
     try:
         start, end = first_range.split('-')
     except ValueError:
